@@ -1,12 +1,12 @@
 #!/bin/sh
-# usage: collect_round2.sh Cxx — take the two round-2 seeded changes of a sub-agent (/tmp/mut2/Cxx/out/m1,m2) into
+# usage: collect_round2.sh Cxx — take the two round-2 seeded changes of a sub-agent (/tmp/mut${R:-2}/Cxx/out/m1,m2) into
 # /verif/seeded/Cxx-m3, Cxx-m4, confirm them in scratch worktrees and run the property's check against them.
 p="$1"
 for k in 1 2; do
-  src=/tmp/mut2/$p/out/m$k; id=$p-m$((k+2))
+  src=/tmp/mut${R:-2}/$p/out/m$k; id=$p-m$((k+2))
   [ -f $src/patch.diff ] || { echo "$id: no patch"; continue; }
   mkdir -p /verif/seeded/$id && cp $src/patch.diff $src/demo.py $src/meta.json /verif/seeded/$id/
   /verif/tools/verify_seeded.sh $id
   /verif/tools/seeded_matrix.sh $id
 done
-git -C /repo worktree remove --force /tmp/mut2/$p/tree 2>/dev/null
+git -C /repo worktree remove --force /tmp/mut${R:-2}/$p/tree 2>/dev/null
